@@ -34,9 +34,9 @@ Model/EvalCheck.vos Model/EvalCheck.vok Model/EvalCheck.required_vos: Model/Eval
 Model/Machine.vo Model/Machine.glob Model/Machine.v.beautified Model/Machine.required_vo: Model/Machine.v Model/Term.vo Model/Unify.vo Model/Clause.vo Model/Order.vo Model/Groups.vo Model/GoInt.vo Model/F64.vo Model/Num.vo Gen/Arith_gen.vo Model/Eval.vo
 Model/Machine.vio: Model/Machine.v Model/Term.vio Model/Unify.vio Model/Clause.vio Model/Order.vio Model/Groups.vio Model/GoInt.vio Model/F64.vio Model/Num.vio Gen/Arith_gen.vio Model/Eval.vio
 Model/Machine.vos Model/Machine.vok Model/Machine.required_vos: Model/Machine.v Model/Term.vos Model/Unify.vos Model/Clause.vos Model/Order.vos Model/Groups.vos Model/GoInt.vos Model/F64.vos Model/Num.vos Gen/Arith_gen.vos Model/Eval.vos
-Model/Sld.vo Model/Sld.glob Model/Sld.v.beautified Model/Sld.required_vo: Model/Sld.v Model/Term.vo Model/Unify.vo Model/Order.vo Model/Groups.vo Model/GoInt.vo Model/F64.vo Model/Num.vo Gen/Arith_gen.vo Model/Eval.vo Model/Machine.vo
-Model/Sld.vio: Model/Sld.v Model/Term.vio Model/Unify.vio Model/Order.vio Model/Groups.vio Model/GoInt.vio Model/F64.vio Model/Num.vio Gen/Arith_gen.vio Model/Eval.vio Model/Machine.vio
-Model/Sld.vos Model/Sld.vok Model/Sld.required_vos: Model/Sld.v Model/Term.vos Model/Unify.vos Model/Order.vos Model/Groups.vos Model/GoInt.vos Model/F64.vos Model/Num.vos Gen/Arith_gen.vos Model/Eval.vos Model/Machine.vos
+Model/Sld.vo Model/Sld.glob Model/Sld.v.beautified Model/Sld.required_vo: Model/Sld.v Model/Term.vo Model/Unify.vo Model/Order.vo Model/Groups.vo Model/Clause.vo Model/GoInt.vo Model/F64.vo Model/Num.vo Gen/Arith_gen.vo Model/Eval.vo Model/Machine.vo
+Model/Sld.vio: Model/Sld.v Model/Term.vio Model/Unify.vio Model/Order.vio Model/Groups.vio Model/Clause.vio Model/GoInt.vio Model/F64.vio Model/Num.vio Gen/Arith_gen.vio Model/Eval.vio Model/Machine.vio
+Model/Sld.vos Model/Sld.vok Model/Sld.required_vos: Model/Sld.v Model/Term.vos Model/Unify.vos Model/Order.vos Model/Groups.vos Model/Clause.vos Model/GoInt.vos Model/F64.vos Model/Num.vos Gen/Arith_gen.vos Model/Eval.vos Model/Machine.vos
 Gen/Bootstrap_gen.vo Gen/Bootstrap_gen.glob Gen/Bootstrap_gen.v.beautified Gen/Bootstrap_gen.required_vo: Gen/Bootstrap_gen.v Model/Term.vo
 Gen/Bootstrap_gen.vio: Gen/Bootstrap_gen.v Model/Term.vio
 Gen/Bootstrap_gen.vos Gen/Bootstrap_gen.vok Gen/Bootstrap_gen.required_vos: Gen/Bootstrap_gen.v Model/Term.vos
@@ -73,3 +73,15 @@ Proofs/Groups.vos Proofs/Groups.vok Proofs/Groups.required_vos: Proofs/Groups.v 
 Props/C11.vo Props/C11.glob Props/C11.v.beautified Props/C11.required_vo: Props/C11.v Model/Groups.vo Proofs/Groups.vo Model/Term.vo Model/Machine.vo Model/Boot.vo
 Props/C11.vio: Props/C11.v Model/Groups.vio Proofs/Groups.vio Model/Term.vio Model/Machine.vio Model/Boot.vio
 Props/C11.vos Props/C11.vok Props/C11.required_vos: Props/C11.v Model/Groups.vos Proofs/Groups.vos Model/Term.vos Model/Machine.vos Model/Boot.vos
+Proofs/Db.vo Proofs/Db.glob Proofs/Db.v.beautified Proofs/Db.required_vo: Proofs/Db.v Model/Term.vo Model/Unify.vo Model/Clause.vo Model/Machine.vo
+Proofs/Db.vio: Proofs/Db.v Model/Term.vio Model/Unify.vio Model/Clause.vio Model/Machine.vio
+Proofs/Db.vos Proofs/Db.vok Proofs/Db.required_vos: Proofs/Db.v Model/Term.vos Model/Unify.vos Model/Clause.vos Model/Machine.vos
+Proofs/Compile.vo Proofs/Compile.glob Proofs/Compile.v.beautified Proofs/Compile.required_vo: Proofs/Compile.v Model/Term.vo Model/Unify.vo Model/Clause.vo
+Proofs/Compile.vio: Proofs/Compile.v Model/Term.vio Model/Unify.vio Model/Clause.vio
+Proofs/Compile.vos Proofs/Compile.vok Proofs/Compile.required_vos: Proofs/Compile.v Model/Term.vos Model/Unify.vos Model/Clause.vos
+Props/C09.vo Props/C09.glob Props/C09.v.beautified Props/C09.required_vo: Props/C09.v Model/Term.vo Model/Unify.vo Model/Clause.vo Model/Machine.vo Proofs/Db.vo Model/Boot.vo
+Props/C09.vio: Props/C09.v Model/Term.vio Model/Unify.vio Model/Clause.vio Model/Machine.vio Proofs/Db.vio Model/Boot.vio
+Props/C09.vos Props/C09.vok Props/C09.required_vos: Props/C09.v Model/Term.vos Model/Unify.vos Model/Clause.vos Model/Machine.vos Proofs/Db.vos Model/Boot.vos
+Props/C10.vo Props/C10.glob Props/C10.v.beautified Props/C10.required_vo: Props/C10.v Model/Term.vo Model/Unify.vo Model/Clause.vo Model/Machine.vo Proofs/Compile.vo
+Props/C10.vio: Props/C10.v Model/Term.vio Model/Unify.vio Model/Clause.vio Model/Machine.vio Proofs/Compile.vio
+Props/C10.vos Props/C10.vok Props/C10.required_vos: Props/C10.v Model/Term.vos Model/Unify.vos Model/Clause.vos Model/Machine.vos Proofs/Compile.vos
